@@ -137,8 +137,9 @@ func genSize(t *core.Tape, cmin int, tier string) int {
 	base = append(base, 65536)
 	w = append(w, 2)
 	if tier == "thorough" {
-		base = append(base, 1<<20)
-		w = append(w, 1)
+		// 1 MiB, and values around the 8 MiB buffer recycle cap
+		base = append(base, 1<<20, 8<<20-8, 8<<20+8)
+		w = append(w, 1, 1, 1)
 	}
 	return base[t.Pick(w, "size")]
 }
